@@ -108,6 +108,12 @@ pub enum EchoReq {
     Multipart(Vec<MPart>, u8, Framing),
     Raw(Vec<u8>, Framing),
     Stream(Vec<u8>, Framing),
+    /// first page of a paginated endpoint: scan parameters + optional limit
+    Page(QuerySpec, Option<u32>),
+    /// wildcard remainder of enum values
+    ColorWild(Vec<u8>),
+    /// wildcard remainder of UUIDs
+    UuidWild(Vec<[u8; 16]>),
 }
 
 impl EchoReq {
@@ -122,6 +128,9 @@ impl EchoReq {
             EchoReq::Multipart(..) => "multipart",
             EchoReq::Raw(..) => "raw",
             EchoReq::Stream(..) => "stream",
+            EchoReq::Page(..) => "page",
+            EchoReq::ColorWild(..) => "cwild",
+            EchoReq::UuidWild(..) => "uwild",
         }
     }
 }
@@ -294,6 +303,11 @@ pub fn echo_req() -> impl Strategy<Value = EchoReq> {
         2 => (proptest::collection::vec(mpart(), 1..4), 0u8..6, framing()).prop_map(|(p, b, f)| EchoReq::Multipart(p, b, f)),
         1 => (body_bytes(20000), framing()).prop_map(|(b, f)| EchoReq::Raw(b, f)),
         1 => (body_bytes(60000), framing()).prop_map(|(b, f)| EchoReq::Stream(b, f)),
+        1 => (query_spec(), proptest::option::of(1u32..5000)).prop_map(|(q, l)| EchoReq::Page(q, l)),
+        1 => prop_oneof![
+            proptest::collection::vec(0u8..3, 0..5).prop_map(EchoReq::ColorWild),
+            proptest::collection::vec(any::<[u8; 16]>(), 0..4).prop_map(EchoReq::UuidWild),
+        ],
     ]
 }
 
@@ -541,6 +555,37 @@ pub fn render(req: &EchoReq, tag: &str, style_seed: u64) -> Wire {
             let (bytes, cuts, hp) = finish_request("GET", target.clone(), None, None, None, tag);
             Wire { parts: hp, bytes, cuts, method: "GET", target, expected: json!({"path": null, "query": query_expected(tag, q), "body": null}), op: "ve_query" }
         }
+        EchoReq::Page(q, limit) => {
+            let mut pairs = query_pairs(tag, q, &mut st);
+            if let Some(l) = limit {
+                pairs.push(("limit".into(), l.to_string()));
+            }
+            let target = format!("/e/page?{}", enc_pairs(&pairs, &mut st));
+            let (bytes, cuts, hp) = finish_request("GET", target.clone(), None, None, None, tag);
+            Wire { parts: hp, bytes, cuts, method: "GET", target, expected: json!({"path": {"limit": limit.unwrap_or(100)}, "query": query_expected(tag, q), "body": null}), op: "ve_page" }
+        }
+        EchoReq::ColorWild(cs) => {
+            let mut target = "/e/cwild".to_string();
+            for c in cs {
+                target.push('/');
+                target.push_str(&enc_path_segment(COLORS[*c as usize % 3].1, &mut st));
+            }
+            target.push_str(&format!("?{}", tagq(&mut st)));
+            let (bytes, cuts, hp) = finish_request("GET", target.clone(), None, None, None, tag);
+            let exp: Vec<&str> = cs.iter().map(|c| COLORS[*c as usize % 3].1).collect();
+            Wire { parts: hp, bytes, cuts, method: "GET", target, expected: json!({"path": {"rest": exp}, "query": {"tag": tag}, "body": null}), op: "ve_cwild" }
+        }
+        EchoReq::UuidWild(ids) => {
+            let mut target = "/e/uwild".to_string();
+            for id in ids {
+                target.push('/');
+                target.push_str(&uuid_text(id, &mut st));
+            }
+            target.push_str(&format!("?{}", tagq(&mut st)));
+            let (bytes, cuts, hp) = finish_request("GET", target.clone(), None, None, None, tag);
+            let exp: Vec<String> = ids.iter().map(uuid_canonical).collect();
+            Wire { parts: hp, bytes, cuts, method: "GET", target, expected: json!({"path": {"rest": exp}, "query": {"tag": tag}, "body": null}), op: "ve_uwild" }
+        }
         EchoReq::Json(j, f) => {
             let target = format!("/e/json?{}", tagq(&mut st));
             let body = json_text(&json_wire(j, &mut st), &mut st).into_bytes();
@@ -672,6 +717,9 @@ fn needs_encoding(r: &EchoReq) -> bool {
         EchoReq::Form(fs, f) => odd(&fs.a) || f.chunked,
         EchoReq::Multipart(_, b, _) => b % 6 != 0,
         EchoReq::Raw(_, f) | EchoReq::Stream(_, f) => f.chunked,
+        EchoReq::Page(q, _) => odd(&q.s) || q.opt.as_deref() == Some(""),
+        EchoReq::ColorWild(v) => v.len() != 1,
+        EchoReq::UuidWild(v) => v.len() != 1,
     }
 }
 
@@ -819,11 +867,15 @@ fn check_h2(addr: std::net::SocketAddr, rt: &tokio::runtime::Runtime, b: &Batch,
     type B = http_body_util::combinators::UnsyncBoxBody<bytes::Bytes, std::convert::Infallible>;
     let nonce = splitmix64(b.clients.len() as u64 ^ b.clients.first().map(|c| c.style).unwrap_or(0) ^ 0x68_32);
     let mut wires = vec![];
+    let mut lates: Vec<usize> = vec![];
     for (ci, cs) in b.clients.iter().enumerate() {
         for (i, r) in cs.reqs.iter().enumerate() {
             let tag = format!("h{}-{}-{:x}", ci, i, nonce);
             let w = render(r, &tag, splitmix64(cs.style ^ (i as u64)));
+            // storm batches: the body leaves `late` scheduler yields after the request headers
+            let late = if cs.pause_us > 0 { 1 + (splitmix64(cs.style ^ (i as u64) ^ 0x1a7e) % cs.pause_us as u64) as usize } else { 0 };
             wires.push((tag, w, r));
+            lates.push(late);
         }
     }
     rt.block_on(async {
@@ -834,14 +886,16 @@ fn check_h2(addr: std::net::SocketAddr, rt: &tokio::runtime::Runtime, b: &Batch,
             let _ = conn.await;
         });
         let mut futs = vec![];
-        for (_, w, _) in &wires {
+        for (wi, (_, w, _)) in wires.iter().enumerate() {
+            let late = lates[wi];
             let mut rb = hyper::Request::builder().method(w.method).uri(format!("http://{}{}", addr, w.target)).header("x-verif-tag", wires.iter().find(|x| std::ptr::eq(&x.1, w)).map(|x| x.0.clone()).unwrap());
             if let Some(ct) = &w.parts.ct {
                 rb = rb.header("content-type", ct);
             }
             let body: B = match (&w.parts.body, &w.parts.frames) {
                 (None, _) => http_body_util::Empty::new().boxed_unsync(),
-                (Some(b), None) => http_body_util::Full::new(bytes::Bytes::from(b.clone())).boxed_unsync(),
+                (Some(b), None) if late == 0 => http_body_util::Full::new(bytes::Bytes::from(b.clone())).boxed_unsync(),
+                (Some(b), None) => LateFull { wait: late, data: Some(bytes::Bytes::from(b.clone())) }.boxed_unsync(),
                 (Some(b), Some(sizes)) => {
                     let mut frames = vec![];
                     let mut pos = 0;
@@ -892,6 +946,72 @@ fn check_h2(addr: std::net::SocketAddr, rt: &tokio::runtime::Runtime, b: &Batch,
         conn_task.abort();
         Ok(())
     })
+}
+
+/// A body of one DATA frame that also carries END_STREAM, produced `wait` polls after the
+/// request headers have gone out.
+struct LateFull {
+    wait: usize,
+    data: Option<bytes::Bytes>,
+}
+impl hyper::body::Body for LateFull {
+    type Data = bytes::Bytes;
+    type Error = std::convert::Infallible;
+    fn poll_frame(mut self: std::pin::Pin<&mut Self>, cx: &mut std::task::Context<'_>) -> std::task::Poll<Option<Result<hyper::body::Frame<bytes::Bytes>, Self::Error>>> {
+        if self.wait > 0 {
+            self.wait -= 1;
+            cx.waker().wake_by_ref();
+            return std::task::Poll::Pending;
+        }
+        std::task::Poll::Ready(self.data.take().map(|d| Ok(hyper::body::Frame::data(d))))
+    }
+    fn is_end_stream(&self) -> bool {
+        self.data.is_none()
+    }
+    fn size_hint(&self) -> hyper::body::SizeHint {
+        hyper::body::SizeHint::with_exact(self.data.as_ref().map(|d| d.len() as u64).unwrap_or(0))
+    }
+}
+
+/// CPU contention for the lifetime of the guard: `n` threads doing short bursts of work
+/// separated by yields, so that the server's worker threads get descheduled at odd moments.
+pub struct Contention(std::sync::Arc<std::sync::atomic::AtomicBool>, Vec<std::thread::JoinHandle<()>>);
+impl Contention {
+    pub fn start(n: usize) -> Contention {
+        let stop = std::sync::Arc::new(std::sync::atomic::AtomicBool::new(false));
+        let hs = (0..n)
+            .map(|i| {
+                let stop = stop.clone();
+                std::thread::spawn(move || {
+                    let mut x = i as u64 + 1;
+                    while !stop.load(std::sync::atomic::Ordering::Relaxed) {
+                        for _ in 0..20000 {
+                            x = splitmix64(x);
+                        }
+                        std::hint::black_box(x);
+                        std::thread::yield_now();
+                    }
+                })
+            })
+            .collect();
+        Contention(stop, hs)
+    }
+}
+impl Drop for Contention {
+    fn drop(&mut self) {
+        self.0.store(true, std::sync::atomic::Ordering::Relaxed);
+        for h in self.1.drain(..) {
+            let _ = h.join();
+        }
+    }
+}
+
+const STORM_LANES: usize = 10;
+
+fn storm_strategy() -> impl Strategy<Value = Batch> {
+    let small_part = ("[a-z]{1,6}", proptest::option::of("[a-z]{1,5}"), proptest::collection::vec(any::<u8>(), 0..40)).prop_map(|(name, filename, data)| MPart { name, filename, content_type: None, data });
+    let req = (proptest::collection::vec(small_part, 1..3), 0u8..6, framing()).prop_map(|(p, b, f)| EchoReq::Multipart(p, b, f));
+    (proptest::collection::vec(req, 12..40), any::<u64>()).prop_map(|(reqs, style)| Batch { clients: vec![ClientScript { reqs, pipelined: false, style, pause_us: std::env::var("VERIF_LATE").ok().and_then(|s| s.parse().ok()).unwrap_or(8) }] })
 }
 
 // ---- HTTPS: interleaved TLS handshakes ------------------------------------------
@@ -976,7 +1096,7 @@ pub fn batch_strategy(max_clients: usize) -> impl Strategy<Value = Batch> {
 }
 
 pub fn run(ctx: &mut Ctx) {
-    ctx.rule = "batches of 1-16 (thorough 1-64) concurrent clients, each sending 1-5 requests (keep-alive or pipelined) to typed echo endpoints: path (string/u32/uuid/enum/i64/bool), wildcard, query (all scalar widths, char, f64, options, enum, default), JSON body (nested/recursive/tagged enum/map/options), urlencoded body, multipart, raw and streaming bodies; every value encoded with style choices (percent-encoding eagerness and hex case, '+' vs %20, key order, JSON escapes/whitespace, null vs absent, content-type spelling, content-length vs chunked with extensions/trailers, TCP split points). Oracle: echoed JSON of what the handler received == what was encoded; method/URI/header tag/peer address/request id belong to this request. non-trivial = value needing encoding (reserved, non-ASCII, empty, extreme) or chunked framing or a batch with >=4 concurrent peers; distinct by request. Phase h2_multiplexed sends a whole batch as concurrent streams of one HTTP/2 connection (bodies with a declared length or as DATA frames of generated sizes); phase https_interleaved_handshakes interleaves the TCP connect / TLS handshake / request steps of 2-5 clients".into();
+    ctx.rule = "batches of 1-16 (thorough 1-64) concurrent clients, each sending 1-5 requests (keep-alive or pipelined) to typed echo endpoints: path (string/u32/uuid/enum/i64/bool), wildcard (of strings, of enum values, of UUIDs), first-page parameters of a paginated endpoint (same field types as the query endpoint, plus limit), query (all scalar widths, char, f64, options, enum, default), JSON body (nested/recursive/tagged enum/map/options), urlencoded body, multipart, raw and streaming bodies; every value encoded with style choices (percent-encoding eagerness and hex case, '+' vs %20, key order, JSON escapes/whitespace, null vs absent, content-type spelling, content-length vs chunked with extensions/trailers, TCP split points). Oracle: echoed JSON of what the handler received == what was encoded; method/URI/header tag/peer address/request id belong to this request. non-trivial = value needing encoding (reserved, non-ASCII, empty, extreme) or chunked framing or a batch with >=4 concurrent peers; distinct by request. Phase h2_multiplexed sends a whole batch as concurrent streams of one HTTP/2 connection (bodies with a declared length or as DATA frames of generated sizes); phase https_interleaved_handshakes interleaves the TCP connect / TLS handshake / request steps of 2-5 clients".into();
     ctx.assume("floats in JSON bodies are restricted to values serde_json's fast path parses exactly; non-finite floats are not sent");
     ctx.assume("thread interleavings on the server are not controlled; only schedule-independent equalities are asserted");
     let rt = tokio::runtime::Builder::new_multi_thread().worker_threads(4).enable_all().build().unwrap();
@@ -987,7 +1107,7 @@ pub fn run(ctx: &mut Ctx) {
     let maxc = ctx.tier.pick(16, 64);
     ctx.phase("echo_batches", n, batch_strategy(maxc), |b, st| check_batch(&live, &rt, b, st));
     ctx.require_frac("echo_batches", "batches_4plus_clients", "batches", 0.3);
-    for k in ["ve_path", "ve_wild", "ve_query", "ve_json", "ve_all", "ve_form", "ve_multipart", "ve_raw", "ve_stream"] {
+    for k in ["ve_path", "ve_wild", "ve_query", "ve_json", "ve_all", "ve_form", "ve_multipart", "ve_raw", "ve_stream", "ve_page"] {
         ctx.require_frac("echo_batches", &format!("kind:{}", k), "batches", 0.2);
     }
     // a second server in cancel-on-disconnect mode: same property
@@ -1000,6 +1120,60 @@ pub fn run(ctx: &mut Ctx) {
     ctx.phase("h2_multiplexed", n, batch_strategy(6), |b, st| check_h2(addr1, &rt, b, st));
     ctx.require_frac("h2_multiplexed", "connections_4plus_streams", "connections", 0.4);
     ctx.require_frac("h2_multiplexed", "body_without_declared_length", "connections", 0.3);
+    // many small multipart bodies as concurrent streams, against several servers at once (each with its
+    // own runtimes) so that worker threads are preempted at odd moments: the body of a stream then
+    // sometimes arrives in full between two consecutive polls of its handler (D11)
+    {
+        let lanes: Vec<(LiveEcho, tokio::runtime::Runtime, tokio::runtime::Runtime)> = (0..STORM_LANES)
+            .map(|_| {
+                let srt = tokio::runtime::Builder::new_multi_thread().worker_threads(4).enable_all().build().unwrap();
+                let crt = tokio::runtime::Builder::new_multi_thread().worker_threads(4).enable_all().build().unwrap();
+                let live = start_echo(&srt, 1 << 20, dropshot::HandlerTaskMode::Detached);
+                (live, srt, crt)
+            })
+            .collect();
+        let _busy = Contention::start(std::env::var("VERIF_SPINNERS").ok().and_then(|s| s.parse().ok()).unwrap_or(0));
+        let n = ctx.tier.pick(120, 2000);
+        ctx.phase("h2_multipart_storm", n, storm_strategy(), |b, st| {
+            let results: Vec<(Result<(), Failure>, Stats)> = std::thread::scope(|sc| {
+                let hs: Vec<_> = lanes
+                    .iter()
+                    .map(|(live, _, crt)| {
+                        let addr = live.addr;
+                        sc.spawn(move || {
+                            let mut tmp = Stats::default();
+                            let r = check_h2(addr, crt, b, &mut tmp);
+                            (r, tmp)
+                        })
+                    })
+                    .collect();
+                hs.into_iter().map(|h| h.join().unwrap_or_else(|_| (Err(Failure::new("client-task", "storm lane panicked")), Stats::default()))).collect()
+            });
+            let mut first_err = None;
+            for (i, (r, tmp)) in results.into_iter().enumerate() {
+                st.evals(tmp.evaluations);
+                if i == 0 {
+                    for h in tmp.nontrivial {
+                        st.nontrivial(h);
+                    }
+                    for v in tmp.samples {
+                        st.sample(|| v);
+                    }
+                }
+                if let (Err(f), None) = (r, &first_err) {
+                    first_err = Some(f);
+                }
+            }
+            st.count("storm_batches");
+            match first_err {
+                Some(f) => Err(f),
+                None => Ok(()),
+            }
+        });
+        for (live, srt, _) in lanes {
+            let _ = srt.block_on(live.server.close());
+        }
+    }
     // HTTPS: the accept path for TLS is separate code; interleave the handshakes of several clients
     let live3 = {
         let _g = srt.enter();
